@@ -310,7 +310,7 @@ func c18(ctx *core.Ctx) {
 		ctx.Case(ti, "table="+core.JSON(t))
 		var cs [2]*restful.Container
 		ba, bb := rt.DefaultBuild("curly"), rt.DefaultBuild("jsr311")
-		if ti%4 == 2 {
+		if ti%4 == 2 || ti%4 == 1 {
 			// "switching a container's router is unobservable": both twins were configured with the other router first
 			ba.Switched, bb.Switched = true, true
 		}
